@@ -25,6 +25,7 @@ RULE = (
     "with the execution oracle, and programs in which a rewrite moves / rewrites a statement containing each literal "
     "kind. non-trivial = the stage changed the text"
 )
+RULE += (" head family: statements whose first identifier starts with a keyword (every hard and soft keyword x suffixes _x / s) x 5 statement forms x 5 positions x 6 stages.")
 ASSUMPTIONS = [
     "whitespace inside docstrings is normalised before trees are compared (tolerated by the property)",
     "stages that raise are C04's business (blocked here)",
